@@ -489,6 +489,26 @@ def check_string_forms(run, tree, all_cases=False):
                    "or is mirrored" % d)
         except ERR as e:
             run.unresolved(construct, fi.where(), "cannot fold: %s" % e)
+    # history: a returned basis belongs to the caller - editing it in place (b.n *= -1, flipping an axis of the image) must not change
+    # what the NEXT call answers (axis vectors kept at module level and handed out by reference would)
+    for d, (a, b, c) in [f for f in forms if f[0] in ("x", "y", "z", "xyz", "zyx", "yzx")]:
+        construct = "%s[direction=%r, asked again after the first answer was edited in place]" % (GD, d)
+        try:
+            try:
+                first = ModelEval(tree, fi, {}, hk).invoke(fi, [d], {}, None)
+                ev = ModelEval(tree, tree.func(VECTOR_Q + ".__init__"), {}, hk)
+                for nm in "nuv":
+                    for comp in ev.obj_getattr(ev.obj_getattr(first, nm), "_xyz").values():
+                        comp.r = R(Poly.sym("scribble"))
+                second = ModelEval(tree, fi, {}, hk).invoke(fi, [d], {}, None)
+            except (Raised, ProgramRaised) as e:
+                run.violated(construct, fi.where(), "raises %s" % e, "map(direction=%r) twice" % d)
+                continue
+            probs = basis_problems(tree, hk, second, exact=(AXES[a], AXES[b], AXES[c]))
+            run.ob(construct, not probs and second is not first, fi.where(), "; ".join(probs[:3]) or "the second answer is a new basis with n, u, v = %s, %s, %s" % (a, b, c),
+                   "b = get_direction(%r); b.n *= -1; every later map(direction=%r) is mirrored (the axis vectors are shared between calls)" % (d, d))
+        except ERR as e:
+            run.unresolved(construct, fi.where(), "cannot fold: %s" % e)
     # anything else is refused
     for bad in (3.5, ["x"], None):
         construct = "%s[direction=%r]" % (GD, bad)
